@@ -161,7 +161,9 @@ def build(ctx, sh):
             v = c.o + c.size          # address of the following statement (listing layout is C02's subject)
         ctx.check_hits(required=(sh.src is not None and sh.form != "raw"))
     elif sh.src and sh.src[0] == "lbl" and sh.src[1] == "after":
-        v = c.o  # unused when rejected
+        # rejected: the label's address is the origin plus the size the statement would have had
+        width = 1 if (sh.form == "imm" and S.imm_width(m) == 8) or sh.form == "dir" else 3 if sh.form == "extind" else 2
+        v = c.o + S.opcode_len(m) + width
     c.v = v
     c.env = {"v": v, "b": c.b, "n": c.n, "size": c.size, "max_size": c.max_size, "kind": c.kind,
              "exc": out.exc_name, "site": out.site, "m": m, "form": sh.form, "reg": sh.reg,
